@@ -33,7 +33,9 @@ SPEC = {
                    "replacing crypto/rand.Reader, sample rate 0, X, X+-ulp, 1, negative, tiny, random; left-over reports "
                    "(dated today+-1, asof+-1, the week, next year, no date, impossible date, local. prefix, short name); "
                    "upload/ absent / with the week already uploaded / stale lock; server status 200/400/404/500/503; "
-                   "between runs SetModeAsOf and new count files; a third of the non-on runs go through the real "
+                   "between runs SetModeAsOf and new count files; a fifth of the mode-on runs go through the real upload.Run "
+                   "with the upload config (its SampleRate) PUBLISHED on a file module proxy and fetched by "
+                   "configstore.Download; a third of the non-on runs go through the real "
                    "upload.Run; every 8th case is one long-running process (one file object of the real library): rotate1, "
                    "increments, mode file rewritten (raw or by SetModeAsOf; off / local / on / near-miss words, white-space "
                    "variants), optional increments, rotate1 again with CounterTime at the end / +1 s / days past it / before "
@@ -65,7 +67,7 @@ SPEC = {
                   "Format of DateOnly (Lib/Calendar), the regexp dateRE (hand-written matcher), os.ReadDir order, "
                   "counter.Parse + RFC3339 decoding of count-file metadata (the harness sends the decoded span), HTTP "
                   "transport (the status is an input). Not modelled: report contents (JSON), the config download of "
-                  "newUploader (mode on goes through the injected constructor), the debug log, concurrency between "
+                  "newUploader is exercised (file proxy) but go mod download itself is not modelled, the debug log, concurrency between "
                   "uploaders, a mode change DURING a run or during the life of a process that already opened its count "
                   "file is modelled at rotations only (every rotate1 re-reads the mode; Add never does: known finding "
                   "recording-until-rotation), "
